@@ -10,6 +10,9 @@ def is_int(j):
     return isinstance(j, int) and not isinstance(j, bool)
 
 
+LENIENT = False   # set by valid_lenient: undeclared properties are ignored (the forward-compatibility reading, C15)
+
+
 def valid(m, t, j, depth=0) -> bool:
     if depth > 200:
         return False
@@ -83,7 +86,7 @@ def valid_props(m, props, j, depth) -> bool:
     if not props:
         return True   # a structure / literal without declared properties is an extension point
     names = {p["name"] for p in props}
-    if any(kk not in names for kk in j):
+    if not LENIENT and any(kk not in names for kk in j):
         return False
     for p in props:
         if p["name"] in j:
@@ -97,3 +100,15 @@ def valid_props(m, props, j, depth) -> bool:
 def valid_alternatives(m, t, j):
     """indices of the alternatives of an `or` for which j is valid"""
     return [i for i, alt in enumerate(t["items"]) if valid(m, alt, j)]
+
+
+def valid_lenient(m, t, j) -> bool:
+    """validity when undeclared properties are ignored at every protocol-object node (what a forward-compatible reader accepts)"""
+    global LENIENT
+    old = LENIENT
+    LENIENT = True
+    try:
+        return valid(m, t, j)
+    finally:
+        LENIENT = old
+
